@@ -460,6 +460,9 @@ def _round(number, num_digits, _rounding=decimal.ROUND_HALF_UP):
     number = decimal.Decimal(str(number))
     with decimal.localcontext() as dc:
         dc.rounding = _rounding
+        # The default 28 digits are too few for the exact result on large
+        # numbers (ROUND(7e19, 9), INT(1e30)): decimal.InvalidOperation.
+        dc.prec = max(dc.prec, number.adjusted() + abs(int(num_digits)) + 30)
         ans = round(number, int(num_digits))
     return float(ans)
 
